@@ -216,3 +216,28 @@ Proof.
   exact (file_partition sigma cden (cells_of tbl') matching u0 u1 H0 H1 Hc Hok fuel todo cnt0 s'
            Hnd Hle Hrun rn skipped d' Hpr Hresp Hskip (Z.of_N c) Hown' Huniq).
 Qed.
+
+(* ---- non-vacuity: the table C11_example_deck computes for the deck
+   "1 0 -1 2 imp:n=1" / "2 3 -2.7 #1:3", handed to the conversion ---- *)
+Definition exl_tbl : M11.table :=
+  [ (1%N, M11.mkCell (M11.AAnd (M11.ASurf (-1) None) (M11.ASurf 2 None)) false);
+    (2%N, M11.mkCell (M11.AOr (M11.AOr (M11.ASurf 1 None) (M11.ASurf (-2) None)) (M11.ASurf 3 None)) false) ].
+Definition exl_matching : dict (list Z) := [ (1, [1]); (2, [2]); (3, [3]) ].
+
+Lemma exl_ok :
+  (forall n c', M11.lookup exl_tbl n = Some c' -> a_known exl_matching (M11.c_geom c') = true) /\
+  (forall k ids, lookup k exl_matching = Some ids -> Forall (fun x => x <> 0) ids) /\
+  exists s' d', convert_cells 3 (cells_of exl_tbl) exl_matching 5 6 [1; 2] (mkSt 2 [] [] []) = Ok s' /\
+                prune 5 6 None (vols s') = Ok d' /\
+                map fst (filter (fun kv => negb (v_fict (snd kv))) (written [] d')) = [1; 2].
+Proof.
+  split; [|split].
+  - intros n c' H. unfold M11.lookup, exl_tbl in H. cbn [find fst snd] in H.
+    destruct (N.eqb 1 n); [inversion H; reflexivity|].
+    destruct (N.eqb 2 n); [inversion H; reflexivity | discriminate].
+  - intros k ids H. simpl in H.
+    destruct (k =? 1); [inversion H; repeat constructor; lia|].
+    destruct (k =? 2); [inversion H; repeat constructor; lia|].
+    destruct (k =? 3); [inversion H; repeat constructor; lia | discriminate].
+  - eexists. eexists. split; [vm_compute; reflexivity|]. split; vm_compute; reflexivity.
+Qed.
